@@ -125,6 +125,52 @@ InvCanonicalCovariance ==
          ct == ChiTable(cs, sites, n)
      IN \A l1, l2 \in sites : \A a, b \in Comps : DefSum(cs, ft, ct, l1, a, l2, b) = <<cov[l1][a][l2][b], 0>>
 
+-----------------------------------------------------------------------------
+(* run_d2f: "rebuilding force constants from the unmodified eigen-solutions returns the original   *)
+(* ones" - for ALL force constants, dynamically unstable ones included.  Model: SIGNED eigenvalues   *)
+(* w(q nu) (negative = imaginary mode) on some points, equal at q and -q; the original force         *)
+(* constants are by definition the Fourier inversion of D(q) = E(q) diag(w) E(q)^dagger over the      *)
+(* whole dual group.  The code's route (_collect_eigensolutions -> create_dynamical_matrices ->        *)
+(* inverse transformation) works on the collected list `qlist`: solved members and conjugated copies. *)
+Lam(p, nu, n) == IF (H(p) + H(NegMod(p, n)) + nu) % 2 = 0 THEN -Sigma2(p, nu, n) ELSE Sigma2(p, nu, n)
+(* what create_dynamical_matrices puts on the diagonal for eigenvalue w: w itself, sign included *)
+EigWeight(w) == w
+
+D25Of(E, p0, a, b, n) ==       \* 25 (E diag(w) E^dagger)_ab with the eigenvalues of the point p0
+  GAdd(GScale(EigWeight(Lam(p0, 1, n)), GMul(E[a][1], GConj(E[b][1]))),
+       GScale(EigWeight(Lam(p0, 2, n)), GMul(E[a][2], GConj(E[b][2]))))
+
+(* dynamical matrix rebuilt for entry k of the collected list *)
+RebuiltDm(k, a, b, n) ==
+  LET q == qlist[k]
+      p0 == IF q.conj THEN NegMod(q.p, n) ELSE q.p        \* the member that was solved
+      E == IF q.conj THEN ConjMat(Eig5(p0, n)) ELSE Eig5(p0, n)
+  IN D25Of(E, p0, a, b, n)
+
+RECURSIVE RebuiltSum(_, _, _, _, _, _)
+RebuiltSum(k, l1, a, l2, b, n) ==      \* 25 N Phi(l1 a, l2 b) as rebuilt
+  IF k > Len(qlist) THEN <<0, 0>>
+  ELSE GAdd(GMul(RebuiltDm(k, a, b, n), GMul(Chi(qlist[k].p, l1, n), GConj(Chi(qlist[k].p, l2, n)))),
+            RebuiltSum(k + 1, l1, a, l2, b, n))
+
+(* the original: definition-side sum over the dual group with the true signed eigenvalues *)
+OrigTable(cs, n) ==
+  Materialize([p \in cs |-> Materialize([a \in Comps |-> Materialize([b \in Comps |->
+     LET E == Eig5(p, n)
+     IN GAdd(GScale(Lam(p, 1, n), GMul(E[a][1], GConj(E[b][1]))), GScale(Lam(p, 2, n), GMul(E[a][2], GConj(E[b][2]))))])])])
+
+InvD2FIdentity ==
+  pc = "combined" =>
+     LET cs == CommSet(S)
+         n == NN(S)
+         ot == OrigTable(cs, n)
+         ct == ChiTable(cs, sites, n)
+     IN \A l1, l2 \in sites : \A a, b \in Comps :
+           RebuiltSum(1, l1, a, l2, b, n) = DefSum(cs, ot, ct, l1, a, l2, b)
+(* the model is not vacuous: some solved point has a negative eigenvalue *)
+InvSomeImaginary ==
+  pc = "combined" => \E k \in 1..Len(qlist) : \E nu \in Bands : Lam(qlist[k].p, nu, NN(S)) < 0
+
 TypeOKC == pc \in {"choose", "snf", "points", "categorize", "prepare", "collect", "reject", "done", "solved", "combined"}
 (* number of independent variates = rows of the map = degrees of freedom of the model supercell *)
 InvRows == pc \in {"solved", "combined"} => Len(rows) = 2 * NN(S)
